@@ -92,7 +92,7 @@ let chk_fuel = nat_of_int 4000
 
 let dummy_pre = { p_map = O; p_filter = O; p_iter = O; p_int_sum = O; p_float_sum = O;
                   p_string_sum = O; p_int_product = O; p_float_product = O }
-let dummy_red = { r_all = VVoid; r_any = VVoid; r_and = VVoid; r_or = VVoid }
+let dummy_red = { r_all = VVoid; r_any = VVoid; r_and = VVoid; r_or = VVoid; r_sums = []; r_products = [] }
 
 type env = { st : store; pre : prelude; red : reducers; std : value }
 
@@ -128,12 +128,16 @@ let boot (helpers : (string * sline list) list) : env =
   let m = get "MAP" in let f = get "FILTER" in let it = get "ITER" in
   e := { !e with pre = { !e.pre with p_map = fid_of m; p_filter = fid_of f; p_iter = fid_of it } };
   let a = get "AND" in let o = get "OR" in let al = get "ALL" in let an = get "ANY" in
-  e := { !e with red = { r_all = al; r_any = an; r_and = a; r_or = o } };
+  e := { !e with red = { !e.red with r_all = al; r_any = an; r_and = a; r_or = o } };
   let ip = get "INT_PRODUCT" in let fp = get "FLOAT_PRODUCT" in
   let is_ = get "INT_SUM" in let fs = get "FLOAT_SUM" in let ss = get "STRING_SUM" in
   e := { !e with pre = { !e.pre with p_int_sum = fid_of is_; p_float_sum = fid_of fs;
                                      p_string_sum = fid_of ss; p_int_product = fid_of ip;
                                      p_float_product = fid_of fp } };
+  (* `$+` / `$*` plant one of these (reduce.rs::plant), in the order sum.rs / product.rs list them *)
+  let it_of t = TFun ([], TTup [TBool; t]) in
+  e := { !e with red = { !e.red with r_sums = [(it_of TInt, is_); (it_of TFloat, fs); (it_of TString, ss)];
+                                     r_products = [(it_of TInt, ip); (it_of TFloat, fp)] } };
   !e
 
 (* canonical printing with the store: cells show their content, ids renumbered by first appearance *)
